@@ -280,6 +280,15 @@ class World:
         self.prog.append("dirty")
         self.record("noise", reads=False)
 
+    def wedge(self, b, size=None):
+        """a live odd-sized neighbour (packed): whatever is allocated next in a buffer of alignment 1 starts at another residue mod 8"""
+        size = size or self.rng.choice([1, 3, 5, 13])
+        buf = self.bufs[b]
+        off = buf.allocate(size, align=False)
+        buf.update_from_buffer(off, bytes([0x3C]) * size)
+        self.prog.append(f"wedge b={b} {size} -> {off}")
+        self.record("noise", reads=False)
+
     # ------------------------------------------------------------------ reference choices
     def refchoice(self, tx, b, allow=("null", "alias", "new", "foreign")):
         rng = self.rng
